@@ -449,6 +449,44 @@ def r6_seeding(ctx, rule):
         ctx.ok(rule, qual, 'one start node per base structure with index 0 everywhere; all pushed on a new session')
 
 
+def r12_queue_conservation(ctx, rule):
+    """Exactly-once needs the queue to be conservative: an item enters by a push/append and leaves only by the pop that hands it
+    to the caller.  The list is never re-bound (except to the initial []), truncated, filtered, cleared or sliced - a queue that
+    is 'trimmed' to a maximum size silently drops pre-terminals together with their whole sub-trees (seed C02-g)."""
+    closure = ctx.resolver.closure(['pcfg_guesser.py', 'prince_ling.py'])
+    n = 0
+    bad = False
+    for qual, fn in ctx.repo.all_funcs():
+        rel = qual.partition('::')[0]
+        if rel not in closure:
+            continue
+        mod = ctx.repo.modules[rel]
+        for node in walk_local(fn):
+            if not (isinstance(node, ast.Attribute) and node.attr == 'p_queue'):
+                continue
+            n += 1
+            par = mod.parents.get(id(node))
+            what = None
+            if isinstance(node.ctx, ast.Store):
+                if not (isinstance(par, ast.Assign) and isinstance(par.value, ast.List) and not par.value.elts):
+                    what = 'queue re-bound: ' + U(par)[:70]
+            elif isinstance(node.ctx, ast.Del):
+                what = 'queue deleted'
+            elif isinstance(par, ast.Subscript) and par.value is node and isinstance(par.ctx, (ast.Store, ast.Del)):
+                what = 'queue sliced/overwritten: ' + U(mod.parents.get(id(par)))[:70]
+            elif isinstance(par, ast.AugAssign) and par.target is node:
+                what = 'queue re-bound: ' + U(par)[:70]
+            elif isinstance(par, ast.Attribute) and par.value is node and par.attr in ('clear', 'remove', '__delitem__', '__setitem__'):
+                what = 'queue.%s(...)' % par.attr
+            if what:
+                bad = True
+                ctx.bad(rule, qual, what, 'every pushed pre-terminal must stay queued until it is popped for emission: trimming, '
+                        'filtering or re-building the queue loses pre-terminals and everything that would have been generated '
+                        'from them', None, node)
+    if ctx.floor(rule, PQ + '__init__', n, 4, 'uses of p_queue') and not bad:
+        ctx.ok(rule, PQ + '__init__', 'the queue list is only pushed to and popped from (never re-bound, trimmed or cleared)', {'uses': n})
+
+
 def _mask_insertion(ctx, rule):
     from . import c03
     return c03.r3_mask_insertion(ctx, rule)
@@ -465,7 +503,7 @@ def _loader_bundle():
 
 
 def rules(tier):
-    return [('C02.R1', lambda c, r: r1_adoption_kernel(c, r)), ('C02.R2', r2_predecessor), ('C02.R3', r3_coparent_prob),
+    return [('C02.R12', r12_queue_conservation), ('C02.R1', lambda c, r: r1_adoption_kernel(c, r)), ('C02.R2', r2_predecessor), ('C02.R3', r3_coparent_prob),
             ('C02.R4', r4_copy_before_mutate), ('C02.R5', r5_all_children_pushed), ('C02.R6', r6_seeding),
             ('C02.R7', c01.r3b_prob_pure), ('C02.R8', c01.r4_prob_pt_coupling), ('C02.R9', c01.r5_successor), ('C02.R10', _mask_insertion),
             ('C02.R11', _exact_float)] + _loader_bundle() + []
